@@ -191,3 +191,24 @@ mut("c12f-parent-single-hop", "C12", B, "                let mut redone = parent
     "                if let Some(id) = parent.redone.as_ref() {\n                    parent_block = txn\n                        .store\n                        .blocks\n                        .get_item_clean_start(id)\n                        .map(|slice| txn.store.materialize(slice));\n                }", "C12.f")
 mut("c12f-left-trace-single-hop", "C12", B, "                while let Some(trace) = left_trace.as_deref() {\n                    let p = trace.parent.as_branch().and_then(|p| p.item);\n                    if parent_block != p {",
     "                if let Some(trace) = left_trace.as_deref() {\n                    let p = trace.parent.as_branch().and_then(|p| p.item);\n                    if parent_block != p {", "C12.f")
+mut("c06g-no-trim", "C06", S, "            slice.trim_start(offset);\n", "            let _ = offset;\n", "C06.g")
+mut("c06g-diff-announces-block-clock", "C06", U, "            encoder.write_var(block.id().clock + offset);", "            encoder.write_var(block.id().clock);", "C06.g", also=["C08"])
+mut("c06g-offset-from-remote", "C06", S, "            let offset = clock - first_block.clock_start();", "            let offset = clock - blocks.get(0).map(|i| i.as_ref().clock_start()).unwrap_or_default();", "C06.g")
+mut("c06g-benign-named-first-clock", "C06", S, "            let offset = clock - first_block.clock_start();", "            let first_clock = first_block.clock_start();\n            let offset = clock - first_clock;", "", kind="benign")
+mut("c04i-trim-keeps-origin", "C04", B, "        self.origin = self.left.as_deref().map(|b: &Item| b.last_id());\n        self.content = self\n", "        self.content = self\n", "C04.i")
+mut("c04i-trim-left-at-clock", "C04", B, "            .get_item_clean_end(&ID::new(self.id.client, self.id.clock - 1))\n            .map(|slice| store.materialize(slice));\n        self.origin",
+    "            .get_item_clean_end(&ID::new(self.id.client, self.id.clock))\n            .map(|slice| store.materialize(slice));\n        self.origin", "C04.i")
+mut("c04i-skip-len-not-shifted", "C04", B, "            skip.clock += offset;\n            skip.len -= offset;", "            skip.clock += offset;", "C04.i")
+mut("c04i-benign-local-offset", "C04", B, "        self.id.clock += offset;\n        self.left = store", "        let by = offset;\n        self.id.clock += by;\n        self.left = store", "", kind="benign")
+mut("c14b-deleted-anchor-offset", "C14", "yrs/src/sticky_index.rs", "                                index = if right.is_deleted() || !right.is_countable() {", "                                index = if !right.is_countable() {", "C14.b")
+mut("c14b-benign-bound-flags", "C14", "yrs/src/sticky_index.rs", "                                index = if right.is_deleted() || !right.is_countable() {",
+    "                                let gone = right.is_deleted();\n                                index = if gone || !right.is_countable() {", "", kind="benign")
+mut("c16c-trim-tests-other-entry", "C16", "yrs/src/ids.rs", "        if j < self.0.len() && self.0[j].0.start < range.end {", "        if j < self.0.len() && self.0[i].0.start < range.end {", "C16.c")
+mut("c16c-benign-hoisted-index", "C16", "yrs/src/ids.rs", "        if j < self.0.len() && self.0[j].0.start < range.end {\n            self.0[j].0.start = range.end;",
+    "        let t = j;\n        if t < self.0.len() && self.0[t].0.start < range.end {\n            self.0[t].0.start = range.end;", "", kind="benign")
+mut("c18b-step2-empty-shortcut", "C18", "yrs/src/sync/protocol.rs", "        let update = awareness.doc().transact().encode_state_as_update_v1(&sv);\n",
+    "        let txn = awareness.doc().transact();\n        let update = if sv >= txn.state_vector() { Update::EMPTY_V1.to_vec() } else { txn.encode_state_as_update_v1(&sv) };\n", "C18.b")
+mut("c19e-index-advance", "C19", "yffi/src/lib.rs", "            let len = vec.len() as u32;\n            array.insert_range(txn, j, vec);\n            j += len;", "            array.insert_range(txn, j, vec);\n            j += i as u32;", "C19.e")
+mut("c19e-benign-len-after", "C19", "yffi/src/lib.rs", "            let len = vec.len() as u32;\n            array.insert_range(txn, j, vec);\n            j += len;", "            let n = vec.len();\n            array.insert_range(txn, j, vec);\n            j += n as u32;", "", kind="benign")
+mut("c20g-delete-clears-linked", "C20", T, "                        self.add_changed_type(link, item.parent_sub.clone());\n                    }\n                }\n            }\n            result = true;",
+    "                        self.add_changed_type(link, item.parent_sub.clone());\n                    }\n                }\n                item.info.clear_linked();\n            }\n            result = true;", "C20.g")
